@@ -29,7 +29,19 @@ def jobs2d(rng, tier):
                 c = c01.content_for(m, n, rng)
                 L.append("qr %d %d %s" % (l, m if rng.random() < 0.6 else 0, J.hx(c)))
     # DataMatrix: every size boundary with different codeword/byte ratios
-    for i, c in enumerate(DM_CAPS if tier == "thorough" else DM_CAPS[::2] + [1558]):
+    # Auto mode (and explicit modes) at every short length x level: the mode Auto picks decides the version,
+    # and a length that is no capacity boundary of the mode used can still be one for the mode Auto should not pick
+    for l in range(4):
+        for n in (range(1, 62) if tier == "quick" else range(1, 330)):
+            for m in (1, 2, 3):
+                c = c01.content_for(m, n, rng)
+                L.append("qr %d 0 %s" % (l, J.hx(c)))
+    for i, c in enumerate(DM_CAPS):
+        # an interior point of every size's range as well as its two ends
+        lo = DM_CAPS[i - 1] + 1 if i else 1
+        mid = rng.randrange(lo, c + 1)
+        L.append("dm %s" % J.hx("a" * mid))
+        L.append("dm %s" % J.hx("7" * (2 * mid)))
         for d in (-1, 0, 1):
             L.append("dm %s" % J.hx("a" * max(0, c + d)))
             L.append("dm %s" % J.hx("7" * max(0, 2 * (c + d))))
